@@ -373,6 +373,38 @@ func cmdCheck(args []string) int {
 		}
 		fmt.Fprintf(os.Stderr, "%s %s: %s\n", what, r.Name, r.Clause)
 	}
+	// thorough: the witnesses of the fixed findings are replayed against the real code as canaries (a harness run
+	// with the old obligation name and no model searches its whole input neighbourhood); a reproduction means the
+	// defect is back, whatever the contracts say
+	canaries := []any{}
+	if *tier == "thorough" {
+		h := filepath.Join(*verif, "config", "replay", *prop+"_test.go")
+		if _, err := os.Stat(h); err == nil {
+			for _, k := range kf.Findings {
+				if k.Property != *prop || k.Status != "fixed" {
+					continue
+				}
+				rf := ReplayFile{Property: *prop, Obligation: k.Obligation, Kind: "canary", Status: "canary", Model: map[string]string{}, Harness: h}
+				out, ok := runHarness(*verif, *repo, *prop, h, &rf)
+				canaries = append(canaries, map[string]any{"obligation": k.Obligation, "fixed_by": k.Commit, "reproduced": ok})
+				if ok {
+					rf.TestOutput, rf.Reproduced = trunc(out, 8000), true
+					rf.Note = "canary: the witness of a fixed finding reproduces on the real code again"
+					rd := *replayDir
+					if rd == "" {
+						rd = filepath.Join(*verif, "replays")
+					}
+					os.MkdirAll(filepath.Join(rd, *prop), 0755)
+					path := filepath.Join(rd, *prop, "canary_"+sanitize(k.Obligation)+".json")
+					b, _ := json.MarshalIndent(rf, "", " ")
+					os.WriteFile(path, b, 0644)
+					violations++
+					lines = append(lines, fmt.Sprintf("VIOLATION property=%s replay=%s", *prop, path))
+					fmt.Fprintf(os.Stderr, "FAILED canary %s: %s\n", k.Obligation, k.Witness)
+				}
+			}
+		}
+	}
 	for k := range assumptions {
 		cfg.Assumptions = append(cfg.Assumptions, k)
 	}
@@ -405,6 +437,7 @@ func cmdCheck(args []string) int {
 		"samples":                  samples,
 		"bounded":                  cfg.Bounded,
 		"failed":                   failedNames(failed),
+		"canaries":                 canaries,
 	}
 	out := *evOut
 	if out == "" {
